@@ -234,6 +234,22 @@ def _reset_singletons() -> None:
                     setattr(ig, name, None)
 
 
+def discovery_order(dir_path: Path, recursive: bool = True) -> list[Path]:
+    """files of a directory target in the order the orchestrator meets them (falls back to a plain
+    os.walk when the repo's helper was renamed, so that a refactoring never crashes the harness)"""
+    import src.orchestrator.core as oc
+    for name in ("collect_files", "_collect_files_fast"):
+        fn = getattr(oc, name, None)
+        if fn is not None:
+            return list(fn(dir_path, recursive))
+    out = []
+    for root, _dirs, files in os.walk(dir_path):
+        out += [Path(root) / f for f in files]
+        if not recursive:
+            break
+    return out
+
+
 def violations_json(out: str) -> list[dict] | None:
     try:
         d = json.loads(out)
